@@ -440,6 +440,9 @@ Ltac norm_run :=
   repeat (rewrite run_grp || rewrite run_app || rewrite run_cons || rewrite run_nil);
   rewrite ?step_inc, ?step_dec.
 
+Lemma is_decimal_int_groupify e : is_decimal_int (groupify e) = is_decimal_int e.
+Proof. destruct e; reflexivity. Qed.
+
 Lemma groupify_run : forall e, printable e = true ->
   forall st, run st (write_expr (groupify e)) = run st (write_expr e).
 Proof.
@@ -483,7 +486,8 @@ Proof.
   - (* EMember *)
     cbn [printable] in Hp. apply andb_true_iff in Hp as [Hp1 Hp3].
     apply andb_true_iff in Hp1 as [_ Hp2].
-    cbn [groupify write_expr]. destruct c; norm_run; rewrite (IHe1 Hp2), ?(IHe2 Hp3); reflexivity.
+    cbn [groupify write_expr]. rewrite is_decimal_int_groupify.
+    destruct c; norm_run; rewrite (IHe1 Hp2), ?(IHe2 Hp3); reflexivity.
   - (* EAssign *)
     cbn [printable] in Hp. apply andb_true_iff in Hp as [Hp1 Hp3].
     apply andb_true_iff in Hp1 as [_ Hp2].
